@@ -7,6 +7,7 @@ import (
 	"encoding/json"
 	"fmt"
 	"net/http"
+	"sort"
 	"strings"
 	"sync"
 	"testing"
@@ -159,10 +160,15 @@ func checkMethod(t *testing.T, b *rt.Built, s *m.Service, meth *m.Method) bool {
 			c.Class = rapid.SampledFrom(classes).Draw(rt_, "class")
 			msg := msgGen.Draw(rt_, "msg")
 			switch c.Class {
-			case "plain":
-				c.Err = harness.ErrorSpec{Kind: "plain", Message: msg}
-			case "wrapped-plain":
-				c.Err = harness.ErrorSpec{Kind: "wrapped-plain", Message: msg}
+			case "plain", "wrapped-plain":
+				c.Err = harness.ErrorSpec{Kind: c.Class, Message: msg}
+				// a third of the plain errors are well-known error values of the
+				// standard library (context.Canceled from a sub-context of the
+				// method's own, io.EOF from a store ...): undeclared like any other
+				if k := rapid.IntRange(0, 3*len(sentinelNames)-1).Draw(rt_, "sentinel"); k < len(sentinelNames) {
+					c.Err.Sentinel = sentinelNames[k]
+					c.Err.Message = harness.Sentinels[c.Err.Sentinel].Error()
+				}
 			case "undeclared-service", "undeclared-service-wrapped":
 				name := rapid.SampledFrom([]string{"undeclared", "error", "fault", "unsupported_media_type", "missing_field", "custom_undeclared"}).Draw(rt_, "uname")
 				c.Err = harness.ErrorSpec{Kind: "service", Name: name, ID: idGen.Draw(rt_, "id"), Message: msg,
@@ -242,7 +248,20 @@ func goName(s string) string {
 	return out
 }
 
+// sentinelNames lists harness.Sentinels in a fixed order.
+var sentinelNames = func() []string {
+	var ns []string
+	for n := range harness.Sentinels {
+		ns = append(ns, n)
+	}
+	sort.Strings(ns)
+	return ns
+}()
+
 func record(c *caseRec, decl []declaredError) {
+	if c.Err.Sentinel != "" {
+		stats.Class("plain-error-is-sentinel:" + c.Err.Sentinel)
+	}
 	nt := c.Class == "declared-wrapped" || c.Class == "wrapped-plain" || c.Class == "undeclared-service-wrapped"
 	for _, de := range decl {
 		if de.Def.Name == c.Err.Name && strings.HasPrefix(c.Class, "declared") {
